@@ -19,7 +19,9 @@ import (
 	"verif/engine"
 )
 
-const root = "/verif"
+// root is the directory of the verification framework (VERIF_HOME lets a scratch copy run
+// against a scratch worktree when seeded changes are evaluated in parallel).
+var root = checks.Home()
 
 func main() {
 	if len(os.Args) < 2 {
